@@ -8,6 +8,7 @@ package c17
 
 import (
 	"bytes"
+	"errors"
 	"fmt"
 	"os"
 	"path/filepath"
@@ -22,13 +23,13 @@ import (
 )
 
 type op struct {
-	kind    string // create put del get iter flush cancel reopen
+	kind    string // create put del get iter flush cancel reopen; failcreate failflush = the same call while the physical database fails
 	b, k, v int
 }
 
 func (o op) String() string {
 	switch o.kind {
-	case "create", "iter":
+	case "create", "iter", "failcreate":
 		return fmt.Sprintf("%s %d", o.kind, o.b)
 	case "put":
 		return fmt.Sprintf("put %d %d %d", o.b, o.k, o.v)
@@ -40,6 +41,7 @@ func (o op) String() string {
 
 func bname(b int) []byte { return []byte{'b', byte('0' + b)} }
 func key(k int) []byte   { return []byte{byte(k >> 8), byte(k)} }
+
 // val renders a value id; id 0 is the EMPTY (zero-length, non-nil) value, which the chain store
 // does write (an expiration list that became empty) and which must stay distinguishable from "absent".
 func val(v int) []byte {
@@ -89,6 +91,9 @@ func fmtKVs(m map[int]int) string {
 
 func (r *ref) apply(o op) string {
 	switch o.kind {
+	case "failcreate", "failflush":
+		// the physical database refused: an error, and nothing has changed
+		return "err"
 	case "create":
 		if _, ok := r.working[o.b]; ok {
 			return "err"
@@ -134,6 +139,28 @@ type backend struct {
 	db    chain.DB
 	bolt  *bbolt.DB
 	path  string
+	fault *faultDB // the physical database of the f* backends
+}
+
+// faultDB is a physical database that can be told to fail: while armed, CreateBucket is refused
+// and Flush fails with the batch left pending.
+type faultDB struct {
+	chain.DB
+	failCreate, failFlush bool
+}
+
+func (f *faultDB) CreateBucket(name []byte) (chain.DBBucket, error) {
+	if f.failCreate {
+		return nil, errors.New("injected: bucket creation refused")
+	}
+	return f.DB.CreateBucket(name)
+}
+
+func (f *faultDB) Flush() error {
+	if f.failFlush {
+		return errors.New("injected: commit failed")
+	}
+	return f.DB.Flush()
 }
 
 func openBackend(name, dir string, n int) (*backend, error) {
@@ -143,6 +170,26 @@ func openBackend(name, dir string, n int) (*backend, error) {
 		be.db, be.model = chain.NewMemDB(), "kv mem"
 	case "cachemem":
 		be.db, be.model = chain.NewCacheDB(chain.NewMemDB()), "kv cachemem"
+	case "fmem":
+		be.fault = &faultDB{DB: chain.NewMemDB()}
+		be.db, be.model = be.fault, "kv fmem"
+	case "fcachemem":
+		be.fault = &faultDB{DB: chain.NewMemDB()}
+		be.db, be.model = chain.NewCacheDB(be.fault), "kv fcachemem"
+	case "fbolt", "fcachebolt":
+		be.path = filepath.Join(dir, fmt.Sprintf("kv%d.db", n))
+		os.Remove(be.path)
+		bdb, err := bbolt.Open(be.path, 0o600, &bbolt.Options{NoSync: true, NoFreelistSync: true})
+		if err != nil {
+			return nil, err
+		}
+		be.bolt = bdb
+		be.fault = &faultDB{DB: coreutils.NewBoltChainDB(bdb)}
+		if name == "fbolt" {
+			be.db, be.model = be.fault, "kv fspec"
+		} else {
+			be.db, be.model = chain.NewCacheDB(be.fault), "kv fcachespec"
+		}
 	case "bolt", "cachebolt":
 		be.path = filepath.Join(dir, fmt.Sprintf("kv%d.db", n))
 		os.Remove(be.path)
@@ -175,6 +222,22 @@ func (be *backend) apply(o op) (out string) {
 		}
 	}()
 	switch o.kind {
+	case "failcreate":
+		be.fault.failCreate = true
+		_, err := be.db.CreateBucket(bname(o.b))
+		be.fault.failCreate = false
+		if err != nil {
+			return "err"
+		}
+		return "ok"
+	case "failflush":
+		be.fault.failFlush = true
+		err := be.db.Flush()
+		be.fault.failFlush = false
+		if err != nil {
+			return "err"
+		}
+		return "ok"
 	case "create":
 		if _, err := be.db.CreateBucket(bname(o.b)); err != nil {
 			return "err"
@@ -240,7 +303,7 @@ func classify(be string, o op, seq []op, i int) string {
 		if seq[j].kind == "flush" || seq[j].kind == "cancel" {
 			break
 		}
-		if seq[j].kind == "put" || seq[j].kind == "del" || seq[j].kind == "create" {
+		if seq[j].kind == "put" || seq[j].kind == "del" || seq[j].kind == "create" || seq[j].kind == "failcreate" || seq[j].kind == "failflush" {
 			pendingWrite = true
 		}
 	}
@@ -396,6 +459,78 @@ func Run(r *vh.Run) {
 		runSeq(r, "rnd"+strconv.Itoa(i), s, []string{"mem", "cachemem", "cachebolt", "bolt"}, dir, n)
 		n++
 	}
+	// the physical database fails in the middle (Model/KVFault.lean): refused bucket creations and
+	// failing commits anywhere in the history, on the raw backends behind a failing database and on
+	// CacheDB over them; exhaustively over a small alphabet, then random
+	fbackends := []string{"fmem", "fcachemem", "fcachebolt", "fbolt"}
+	for i, sq := range faultCorpus {
+		runSeq(r, fmt.Sprintf("fcorpus%d", i), sq, fbackends, dir, n)
+		n++
+	}
+	falpha := []op{{kind: "create", b: 0}, {kind: "failcreate", b: 0}, {kind: "put", b: 0, k: 1, v: 1}, {kind: "del", b: 0, k: 1},
+		{kind: "get", b: 0, k: 1}, {kind: "iter", b: 0}, {kind: "flush"}, {kind: "failflush"}, {kind: "cancel"}}
+	fdepth := r.Pick(5, 6)
+	r.Extra("fault_exhaustive_alphabet", len(falpha))
+	r.Extra("fault_exhaustive_depth", fdepth)
+	fseq := make([]op, 0, fdepth)
+	var frec func()
+	frec = func() {
+		if len(fseq) > 0 {
+			hasFault := false
+			for _, o := range fseq {
+				if o.kind == "failcreate" || o.kind == "failflush" {
+					hasFault = true
+				}
+			}
+			last := fseq[len(fseq)-1].kind
+			if hasFault && (last == "get" || last == "iter" || (last == "create" && len(fseq) == fdepth)) {
+				bes := []string{"fmem", "fcachemem"}
+				if len(fseq) <= 4 {
+					bes = fbackends
+				}
+				runSeq(r, "fex"+strconv.Itoa(n), fseq, bes, dir, n)
+				n++
+			}
+		}
+		if len(fseq) == fdepth {
+			return
+		}
+		for _, o := range falpha {
+			fseq = append(fseq, o)
+			frec()
+			fseq = fseq[:len(fseq)-1]
+		}
+	}
+	frec()
+	nf := r.Pick(100, 2000)
+	for i := 0; i < nf; i++ {
+		l := 15 + rng.Intn(r.Pick(100, 300))
+		s := make([]op, l)
+		for j := range s {
+			switch x := rng.Intn(100); {
+			case x < 6:
+				s[j] = op{kind: "create", b: rng.Intn(3)}
+			case x < 10:
+				s[j] = op{kind: "failcreate", b: rng.Intn(3)}
+			case x < 40:
+				s[j] = op{kind: "put", b: rng.Intn(3), k: 1 + rng.Intn(6), v: rng.Intn(5)}
+			case x < 56:
+				s[j] = op{kind: "del", b: rng.Intn(3), k: 1 + rng.Intn(6)}
+			case x < 72:
+				s[j] = op{kind: "get", b: rng.Intn(3), k: 1 + rng.Intn(6)}
+			case x < 84:
+				s[j] = op{kind: "iter", b: rng.Intn(3)}
+			case x < 89:
+				s[j] = op{kind: "flush"}
+			case x < 95:
+				s[j] = op{kind: "failflush"}
+			default:
+				s[j] = op{kind: "cancel"}
+			}
+		}
+		runSeq(r, "frnd"+strconv.Itoa(i), s, fbackends, dir, n)
+		n++
+	}
 	// chain histories replayed over each backend
 	runStoreHistories(r, rng.Fork(), dir)
 	r.Assume("bbolt is not modelled: BoltChainDB is compared with the abstract Spec and the reference map only")
@@ -409,6 +544,16 @@ var corpus = [][]op{
 	{{kind: "create", b: 0}, {kind: "put", b: 0, k: 1, v: 1}, {kind: "flush"}, {kind: "del", b: 0, k: 1}, {kind: "get", b: 0, k: 1}},
 	{{kind: "create", b: 0}, {kind: "flush"}, {kind: "put", b: 0, k: 1, v: 1}, {kind: "iter", b: 0}},
 	{{kind: "create", b: 0}, {kind: "put", b: 0, k: 1, v: 1}, {kind: "create", b: 0}, {kind: "get", b: 0, k: 1}},
+}
+
+// histories with a failing physical database (the Lean examples of Props/C17.lean among them)
+var faultCorpus = [][]op{
+	{{kind: "failcreate", b: 0}, {kind: "create", b: 0}, {kind: "put", b: 0, k: 1, v: 1}, {kind: "get", b: 0, k: 1}},
+	{{kind: "failcreate", b: 0}, {kind: "create", b: 0}, {kind: "put", b: 0, k: 1, v: 10}, {kind: "flush"}, {kind: "put", b: 0, k: 2, v: 20},
+		{kind: "del", b: 0, k: 1}, {kind: "failflush"}, {kind: "iter", b: 0}, {kind: "cancel"}, {kind: "iter", b: 0}, {kind: "put", b: 0, k: 3, v: 30},
+		{kind: "failflush"}, {kind: "flush"}, {kind: "cancel"}, {kind: "iter", b: 0}},
+	{{kind: "create", b: 0}, {kind: "flush"}, {kind: "failcreate", b: 0}, {kind: "put", b: 0, k: 1, v: 1}, {kind: "failflush"}, {kind: "get", b: 0, k: 1},
+		{kind: "flush"}, {kind: "cancel"}, {kind: "get", b: 0, k: 1}},
 }
 
 func lenTag(n int) string {
